@@ -661,6 +661,10 @@ func (x *Exec) evalCall(env *Env, e *ECall) (Value, types.Type) {
 		sv, _ := x.eval(env, e.Args[0])
 		iv, _ := x.eval(env, e.Args[1])
 		return ufApp(ufSRune, sv.(*Term), iv.(*Term)), types.Typ[types.Int32]
+	case "bitand": // bitand(a, b): a & b (bit arithmetic is uninterpreted; the same symbol the code's & is translated to)
+		a, at := x.eval(env, e.Args[0])
+		b, _ := x.eval(env, e.Args[1])
+		return ufApp(&UF{"bitop_" + smtIdent("&"), []Sort{SInt, SInt}, SInt}, a.(*Term), b.(*Term)), at
 	case "asiface": // asiface(e): the value e boxed into an interface (the `self` an interface contract speaks about)
 		v, t := x.eval(env, e.Args[0])
 		return x.box(env.st, t, v), types.NewInterfaceType(nil, nil)
